@@ -308,6 +308,8 @@ class CaseOracle:
             if designated == {"DEFAULT"}:
                 if ehs:
                     out.append(V("C06", "unexpected_error_handler", {"req": req_brief(req), "failed": f, "handlers": [e["c"] for _, e in ehs]}))
+            elif "DEFAULT" in designated and not ehs:
+                pass  # the framework's own handler (no event) is one of the acceptable ones
             else:
                 if len(ehs) != 1:
                     out.append(V("C06", "error_handler_count", {"req": req_brief(req), "failed": f, "err": err, "n": len(ehs), "designated": sorted(designated), "events": evs},
